@@ -23,6 +23,7 @@ import (
 	"google.golang.org/grpc/codes"
 	"google.golang.org/grpc/credentials"
 	"google.golang.org/grpc/credentials/insecure"
+	"google.golang.org/grpc/peer"
 
 	"verifharness/internal/ev"
 )
@@ -38,6 +39,11 @@ type tlsWitness struct {
 	Observed string     `json:"observed"`
 	Expected string     `json:"expected"`
 	Args     []string   `json:"server_args,omitempty"`
+	// session-resumption scenarios: the endpoint at which the client obtained its TLS session
+	// before it connected to the endpoint under judgement (Options), and whether the client saw
+	// the session resumed there
+	SessionFrom   *serverOpts `json:"session_obtained_at,omitempty"`
+	ClientResumed bool        `json:"client_saw_session_resumed,omitempty"`
 }
 
 var tlsVersions = []struct {
@@ -138,6 +144,100 @@ func optionSets(rng *rand.Rand) []serverOpts {
 	return out
 }
 
+// tlsEndpoint: a tls.Config produced by TLSInfo.ServerConfig() behind a real listener. Every
+// accepted connection is handshaken; an accepted client that says "ping" is answered "pong".
+type tlsEndpoint struct {
+	ln      net.Listener
+	results chan error
+}
+
+func serveTLS(cfg *tls.Config) (*tlsEndpoint, error) {
+	ln, err := tls.Listen("tcp", "127.0.0.1:0", cfg)
+	if err != nil {
+		return nil, err
+	}
+	e := &tlsEndpoint{ln: ln, results: make(chan error, 16)}
+	go func() {
+		for {
+			c, err := ln.Accept()
+			if err != nil {
+				return
+			}
+			go func(c net.Conn) {
+				defer c.Close()
+				tc := c.(*tls.Conn)
+				_ = tc.SetDeadline(time.Now().Add(10 * time.Second))
+				herr := tc.Handshake()
+				if herr == nil {
+					buf := make([]byte, 4)
+					if _, err := io.ReadFull(tc, buf); err == nil {
+						_, _ = tc.Write([]byte("pong"))
+					}
+				}
+				e.results <- herr
+			}(c)
+		}
+	}()
+	return e, nil
+}
+
+type hsResult struct {
+	ok       bool // a result was obtained (false: watchdog / dial failure, see why)
+	why      string
+	accepted bool  // server side: handshake completed
+	pong     bool  // client side: round trip answered
+	resumed  bool  // client side: the session was resumed
+	serr     error // server-side handshake error
+	cerr     error
+}
+
+// connect performs one connection (used sequentially per endpoint).
+func (e *tlsEndpoint) connect(ccfg *tls.Config) hsResult {
+	raw, err := net.DialTimeout("tcp", e.ln.Addr().String(), 5*time.Second)
+	if err != nil {
+		return hsResult{why: "dial: " + err.Error()}
+	}
+	defer raw.Close()
+	_ = raw.SetDeadline(time.Now().Add(10 * time.Second))
+	tc := tls.Client(raw, ccfg)
+	res := hsResult{}
+	res.cerr = tc.Handshake()
+	if res.cerr == nil {
+		res.resumed = tc.ConnectionState().DidResume
+		if _, err := tc.Write([]byte("ping")); err == nil {
+			buf := make([]byte, 4)
+			// reading also takes in the TLS 1.3 session tickets the server sends after the handshake
+			if _, err := io.ReadFull(tc, buf); err == nil && string(buf) == "pong" {
+				res.pong = true
+			}
+		}
+	}
+	select {
+	case res.serr = <-e.results:
+	case <-time.After(15 * time.Second):
+		res.why = "no server-side handshake result (watchdog)"
+		return res
+	}
+	res.accepted = res.serr == nil
+	if res.accepted != res.pong {
+		res.why = fmt.Sprintf("server-side handshake (%v) and client round trip (pong=%v, err=%v) disagree", res.serr, res.pong, res.cerr)
+		return res
+	}
+	res.ok = true
+	return res
+}
+
+func (p *pki) tlsInfo(o serverOpts) security.TLSInfo {
+	ti := security.TLSInfo{CertFile: p.srvCertFile, KeyFile: p.srvKeyFile, ClientCertAuth: o.ClientCertAuth, AllowedCN: o.AllowedCN, AllowedHostname: o.AllowedHostname}
+	if o.CA {
+		ti.TrustedCAFile = p.caFile
+		if o.TrustOther {
+			ti.TrustedCAFile = p.otherCAFile
+		}
+	}
+	return ti
+}
+
 func runTLSInproc(r *ev.Run, gid string, rng *rand.Rand, all bool) {
 	p, err := newPKI(filepath.Join(scratchDir(), gid), rng)
 	if err != nil {
@@ -151,42 +251,16 @@ func runTLSInproc(r *ev.Run, gid string, rng *rand.Rand, all bool) {
 		r.Note("ServerConfig accepted AllowedCN and AllowedHostname together (not judged)")
 	}
 	for _, o := range optionSets(rng) {
-		ti := security.TLSInfo{CertFile: p.srvCertFile, KeyFile: p.srvKeyFile, ClientCertAuth: o.ClientCertAuth, AllowedCN: o.AllowedCN, AllowedHostname: o.AllowedHostname}
-		if o.CA {
-			ti.TrustedCAFile = p.caFile
-		}
-		cfg, err := ti.ServerConfig()
+		cfg, err := p.tlsInfo(o).ServerConfig()
 		if err != nil {
 			r.Inconclusive(fmt.Sprintf("%s: ServerConfig(%s) failed: %v", gid, o.class(), err))
 			continue
 		}
-		ln, err := tls.Listen("tcp", "127.0.0.1:0", cfg)
+		ep, err := serveTLS(cfg)
 		if err != nil {
 			r.Inconclusive(gid + ": listen: " + err.Error())
 			continue
 		}
-		results := make(chan error, 16)
-		go func() {
-			for {
-				c, err := ln.Accept()
-				if err != nil {
-					return
-				}
-				go func(c net.Conn) {
-					defer c.Close()
-					tc := c.(*tls.Conn)
-					_ = tc.SetDeadline(time.Now().Add(10 * time.Second))
-					herr := tc.Handshake()
-					if herr == nil {
-						buf := make([]byte, 4)
-						if _, err := io.ReadFull(tc, buf); err == nil {
-							_, _ = tc.Write([]byte("pong"))
-						}
-					}
-					results <- herr
-				}(c)
-			}
-		}()
 		r.Distinct("option_sets_inproc", o.class())
 		for _, s := range credentialsFor(rng, o, all) {
 			cert, err := p.mint(s)
@@ -195,50 +269,128 @@ func runTLSInproc(r *ev.Run, gid string, rng *rand.Rand, all bool) {
 				continue
 			}
 			for _, tv := range tlsVersions {
-				raw, err := net.DialTimeout("tcp", ln.Addr().String(), 5*time.Second)
-				if err != nil {
-					r.Inconclusive(gid + ": dial: " + err.Error())
+				res := ep.connect(clientTLS(p, cert, tv.v))
+				if !res.ok {
+					r.Inconclusive(fmt.Sprintf("%s: %s/%s: %s", gid, o.class(), s.Class, res.why))
 					continue
 				}
-				_ = raw.SetDeadline(time.Now().Add(10 * time.Second))
-				tc := tls.Client(raw, clientTLS(p, cert, tv.v))
-				pong := false
-				cerr := tc.Handshake()
-				if cerr == nil {
-					if _, err := tc.Write([]byte("ping")); err == nil {
-						buf := make([]byte, 4)
-						if _, err := io.ReadFull(tc, buf); err == nil && string(buf) == "pong" {
-							pong = true
-						}
-					}
-				}
-				var serr error
-				select {
-				case serr = <-results:
-				case <-time.After(15 * time.Second):
-					raw.Close()
-					r.Inconclusive(fmt.Sprintf("%s: no server-side handshake result for %s/%s (watchdog)", gid, o.class(), s.Class))
-					continue
-				}
-				raw.Close()
 				r.Count("handshakes_inproc", 1)
-				accepted := serr == nil
-				if accepted != pong {
-					r.Inconclusive(fmt.Sprintf("%s: server-side handshake (%v) and client round trip (pong=%v, err=%v) disagree for %s/%s", gid, serr, pong, cerr, o.class(), s.Class))
-					continue
-				}
 				w := tlsWitness{Group: gid, Tier: r.Tier, Seed: r.Seed, Where: "inproc", Options: o, Cred: s, TLSMax: tv.name}
-				judgeTLS(r, w, accepted)
+				judgeTLS(r, w, res.accepted)
 				if s.Near && o.judged() && s.Unjudged == "" && r.Get("handshakes_inproc")%7 == 0 {
 					es := ""
-					if serr != nil {
-						es = serr.Error()
+					if res.serr != nil {
+						es = res.serr.Error()
 					}
-					keep("tls-inproc", map[string]any{"group": gid, "where": "inproc", "options": o, "credential": s, "client_max_tls": tv.name, "observed": acc(accepted), "server_handshake_error": es})
+					keep("tls-inproc", map[string]any{"group": gid, "where": "inproc", "options": o, "credential": s, "client_max_tls": tv.name, "observed": acc(res.accepted), "server_handshake_error": es})
 				}
 			}
 		}
-		ln.Close()
+		ep.ln.Close()
+	}
+	runResumptionInproc(r, gid, p, rng)
+}
+
+// judgeResumed applies the oracle to a connection made with a TLS session obtained elsewhere:
+// the endpoint under judgement (w.Options) must refuse the client unless the client's
+// certificate satisfies *its own* rule - where the client got a session from is irrelevant.
+func judgeResumed(r *ev.Run, w tlsWitness, accepted bool) {
+	a, b, s := *w.SessionFrom, w.Options, w.Cred
+	exp := expectTLS(b, s)
+	w.Observed, w.Expected = acc(accepted), acc(exp)
+	r.Count("connections_with_session_from_other_endpoint", 1)
+	if w.ClientResumed {
+		r.Count("sessions_resumed_at_other_endpoint", 1)
+	}
+	switch {
+	case accepted && !exp:
+		r.Violation(fmt.Sprintf("tls-accepted-with-session-of-other-endpoint-%s-%s-after-%s", w.Where, b.class(), a.class()),
+			fmt.Sprintf("%s TLS endpoint B (%s; trusts_other_ca=%v allowed_cn=%q allowed_hostname=%q) accepted a client (max TLS %s, session resumed: %v) whose certificate is right only for endpoint A (%s; trusts_other_ca=%v allowed_cn=%q allowed_hostname=%q) serving the same key pair: issuer=%s cn=%q dns=%v ips=%v; the client had first completed a connection to A with a TLS session cache",
+				w.Where, b.class(), b.TrustOther, b.AllowedCN, b.AllowedHostname, w.TLSMax, w.ClientResumed, a.class(), a.TrustOther, a.AllowedCN, a.AllowedHostname, s.Issuer, s.CN, s.DNS, s.IPs), w)
+	case !accepted && exp:
+		// accept side: the client is right for B as well; recorded only
+		noteUnjudged("session from "+a.class()+" presented at "+b.class()+" (credential right for both)", acc(accepted))
+		r.Count("tls_unjudged_variants", 1)
+		return
+	case accepted && exp:
+		noteUnjudged("session from "+a.class()+" presented at "+b.class()+" (credential right for both)", acc(accepted))
+	}
+	r.Eval(1)
+	if !exp {
+		r.Nontrivial(fmt.Sprintf("resume|%s|%s|%s|%s|%s|%s", w.Where, a.class(), b.class(), w.TLSMax, a.AllowedCN+a.AllowedHostname, b.AllowedCN+b.AllowedHostname))
+		r.Count("near_miss_certificates", 1)
+	}
+}
+
+// runResumptionInproc: endpoints that serve the SAME server key pair but differ in client CA /
+// allowed CN / allowed hostname (two endpoints of one node, or one endpoint restarted with a
+// rotated setting - each ServerConfig() call is a fresh instance). A client that is right for A
+// and uses a TLS session cache completes a connection to A and then connects to B.
+func runResumptionInproc(r *ev.Run, gid string, p *pki, rng *rand.Rand) {
+	cnX, cnY := randCN(rng), randCN(rng)
+	h1, h2 := randHost(rng), randHost(rng)
+	opts := []serverOpts{
+		{CA: true, AllowedCN: cnX},
+		{CA: true, TrustOther: true, AllowedCN: cnX},
+		{CA: true, ClientCertAuth: true, AllowedCN: cnY},
+		{CA: true, AllowedHostname: h1},
+		{CA: true, TrustOther: true, ClientCertAuth: true, AllowedHostname: h2},
+		{CA: true, ClientCertAuth: true},
+		{CA: true, TrustOther: true},
+		{CA: true, AllowedCN: cnX}, // the same settings again: another instance ("restarted unchanged")
+	}
+	eps := make([]*tlsEndpoint, len(opts))
+	for i, o := range opts {
+		cfg, err := p.tlsInfo(o).ServerConfig()
+		if err != nil {
+			r.Inconclusive(fmt.Sprintf("%s: ServerConfig(%s) failed: %v", gid, o.class(), err))
+			return
+		}
+		if eps[i], err = serveTLS(cfg); err != nil {
+			r.Inconclusive(gid + ": listen: " + err.Error())
+			return
+		}
+		defer eps[i].ln.Close()
+	}
+	for i, a := range opts {
+		spec := canonicalSpec(rng, a)
+		spec.Class = "right-for-first-endpoint"
+		cert, err := p.mint(spec)
+		if err != nil {
+			r.Inconclusive(gid + ": mint: " + err.Error())
+			continue
+		}
+		for j, b := range opts {
+			if i == j {
+				continue
+			}
+			for _, tv := range tlsVersions {
+				ccfg := clientTLS(p, cert, tv.v)
+				ccfg.ClientSessionCache = tls.NewLRUClientSessionCache(8)
+				first := eps[i].connect(ccfg)
+				if !first.ok || !first.accepted {
+					r.Inconclusive(fmt.Sprintf("%s: resumption scenario: the client right for %s was not served there (%s %v)", gid, a.class(), first.why, first.serr))
+					continue
+				}
+				second := eps[j].connect(ccfg)
+				if !second.ok {
+					r.Inconclusive(fmt.Sprintf("%s: resumption scenario %s -> %s: %s", gid, a.class(), b.class(), second.why))
+					continue
+				}
+				r.Count("handshakes_inproc", 2)
+				a := a
+				w := tlsWitness{Group: gid, Tier: r.Tier, Seed: r.Seed, Where: "inproc", Options: b, Cred: spec, TLSMax: tv.name, SessionFrom: &a, ClientResumed: second.resumed}
+				judgeResumed(r, w, second.accepted)
+				if !expectTLS(b, spec) {
+					es := ""
+					if second.serr != nil {
+						es = second.serr.Error()
+					}
+					keep("tls-resumption", map[string]any{"group": gid, "where": "inproc", "session_obtained_at": a, "then_connected_to": b, "credential": spec, "client_max_tls": tv.name,
+						"observed": acc(second.accepted), "client_saw_session_resumed": second.resumed, "server_handshake_error": es})
+				}
+			}
+		}
 	}
 }
 
@@ -254,21 +406,109 @@ func dialTLS(addr string, cfg *tls.Config) (*grpc.ClientConn, error) {
 		grpc.WithDefaultCallOptions(grpc.MaxCallRecvMsgSize(64<<20)))
 }
 
-// rpcRoundTrip: does a fresh connection with this credential get an answer from the server?
-func rpcRoundTrip(addr string, cfg *tls.Config) (ok bool, detail string) {
+// roundTrip: does a fresh connection with this credential get an answer from the server
+// (Cluster/Status on the API endpoint, Metadata/Get on the leader's replication endpoint)?
+// resumed: what the client's TLS state says about session resumption (answered calls only).
+func roundTrip(addr string, cfg *tls.Config, repl bool) (ok, resumed bool, detail string) {
 	conn, err := dialTLS(addr, cfg)
 	if err != nil {
-		return false, "dial: " + err.Error()
+		return false, false, "dial: " + err.Error()
 	}
 	defer conn.Close()
 	ctx, cancel := context.WithTimeout(context.Background(), 8*time.Second)
 	defer cancel()
-	_, err = pb.NewClusterClient(conn).Status(ctx, &pb.StatusRequest{})
+	var pr peer.Peer
+	what := "Cluster/Status"
+	if repl {
+		what = "Metadata/Get"
+		_, err = pb.NewMetadataClient(conn).Get(ctx, &pb.MetadataRequest{}, grpc.Peer(&pr))
+	} else {
+		_, err = pb.NewClusterClient(conn).Status(ctx, &pb.StatusRequest{}, grpc.Peer(&pr))
+	}
+	if ti, isTLS := pr.AuthInfo.(credentials.TLSInfo); isTLS {
+		resumed = ti.State.DidResume
+	}
 	o := mkOutcome(err, false)
 	if o.Code == codes.OK {
-		return true, "Cluster/Status OK"
+		return true, resumed, what + " OK"
 	}
-	return false, o.CodeS + ": " + o.Msg
+	return false, resumed, o.CodeS + ": " + o.Msg
+}
+
+func rpcRoundTrip(addr string, cfg *tls.Config) (bool, string) {
+	ok, _, d := roundTrip(addr, cfg, false)
+	return ok, d
+}
+
+// runResumptionBinary: the leader's API endpoint (A: trusted CA + the group's name rule) and its
+// replication endpoint (B: the *other* client CA, client-cert-auth) serve the same key pair.
+// A client right for one endpoint, with a TLS session cache, completes an RPC there and then
+// connects to the other endpoint: that one must judge the client by its own rule.
+func runResumptionBinary(r *ev.Run, g tlsBinGroup, in *instance, p *pki, rng *rand.Rand, a serverOpts) {
+	b := serverOpts{CA: true, TrustOther: true, ClientCertAuth: true}
+	type side struct {
+		o    serverOpts
+		addr string
+		rt   func(string, *tls.Config) (bool, string)
+		name string
+	}
+	api := side{a, in.api, rpcRoundTrip, "api"}
+	repl := side{b, in.repl, func(addr string, cfg *tls.Config) (bool, string) {
+		ok, _, d := roundTrip(addr, cfg, true)
+		return ok, d
+	}, "replication"}
+	mk := func(o serverOpts) (certSpec, *tls.Certificate) {
+		s := canonicalSpec(rng, o)
+		c, err := p.mint(s)
+		if err != nil {
+			return s, nil
+		}
+		return s, c
+	}
+	for _, dir := range [][2]side{{api, repl}, {repl, api}} {
+		from, to := dir[0], dir[1]
+		spec, cert := mk(from.o)
+		_, toCert := mk(to.o)
+		if cert == nil || toCert == nil {
+			r.Inconclusive(g.id + ": resumption scenario: mint failed")
+			return
+		}
+		spec.Class = "right-for-" + from.name + "-endpoint"
+		where := "binary-leader-" + to.name
+		for _, tv := range tlsVersions {
+			// liveness / control: the client that is right for the second endpoint is served there
+			if ok, d := to.rt(to.addr, clientTLS(p, toCert, tv.v)); !ok {
+				r.Inconclusive(fmt.Sprintf("%s: resumption scenario: the %s endpoint does not serve its rightful client (%s)", g.id, to.name, d))
+				continue
+			}
+			// baseline without any session: judged like every other credential
+			fresh, _ := to.rt(to.addr, clientTLS(p, cert, tv.v))
+			r.Count("tls_rpc_probes", 1)
+			bs := spec
+			bs.Near = true
+			judgeTLS(r, tlsWitness{Group: g.id, Tier: r.Tier, Seed: r.Seed, Where: where, Options: to.o, Cred: bs, TLSMax: tv.name, Args: in.args}, fresh)
+			// with a session obtained at the first endpoint
+			ccfg := clientTLS(p, cert, tv.v)
+			ccfg.ClientSessionCache = tls.NewLRUClientSessionCache(8)
+			if ok, d := from.rt(from.addr, ccfg); !ok {
+				r.Inconclusive(fmt.Sprintf("%s: resumption scenario: the %s endpoint does not serve its rightful client (%s)", g.id, from.name, d))
+				continue
+			}
+			got, resumed, detail := roundTrip(to.addr, ccfg, to.name == "replication")
+			r.Count("tls_rpc_probes", 2)
+			if !got {
+				if ok, d := to.rt(to.addr, clientTLS(p, toCert, tv.v)); !ok {
+					r.Inconclusive(fmt.Sprintf("%s: resumption scenario: %s endpoint stopped serving its rightful client (%s)", g.id, to.name, d))
+					continue
+				}
+			}
+			fo := from.o
+			w := tlsWitness{Group: g.id, Tier: r.Tier, Seed: r.Seed, Where: where, Options: to.o, Cred: spec, TLSMax: tv.name, Args: in.args, SessionFrom: &fo, ClientResumed: resumed}
+			judgeResumed(r, w, got)
+			keep("tls-resumption-binary", map[string]any{"group": g.id, "where": where, "session_obtained_at": from.name + " endpoint " + from.o.class(), "then_connected_to": to.name + " endpoint " + to.o.class(),
+				"credential": spec, "client_max_tls": tv.name, "observed": acc(got), "client_saw_session_resumed": resumed, "client_saw": detail})
+		}
+	}
 }
 
 type tlsBinGroup struct {
@@ -298,6 +538,10 @@ func runTLSBinary(r *ev.Run, g tlsBinGroup, rng *rand.Rand, all bool) {
 	goodCfg := func() *tls.Config { return clientTLS(p, canon, tls.VersionTLS13) }
 
 	spec := instSpec{Name: g.id, Kind: g.kind, TLS: tf}
+	if g.kind == "leader" {
+		// the replication endpoint serves the same key pair but trusts the other client CA
+		spec.ReplTLS = &tlsFlags{Cert: p.srvCertFile, Key: p.srvKeyFile, CA: p.otherCAFile, ClientCertAuth: true}
+	}
 	var lead *instance
 	if g.kind == "follower" {
 		lead, err = startInstance(instSpec{Name: g.id + "-ld", Kind: "leader"}, readyPlain(""))
@@ -370,6 +614,9 @@ func runTLSBinary(r *ev.Run, g tlsBinGroup, rng *rand.Rand, all bool) {
 				keep("tls-binary", map[string]any{"group": g.id, "where": where, "options": o, "credential": s, "client_max_tls": tv.name, "observed": acc(ok), "client_saw": detail})
 			}
 		}
+	}
+	if g.kind == "leader" {
+		runResumptionBinary(r, g, in, p, rng, o)
 	}
 	if g.control {
 		conn, err := dialTLS(in.api, goodCfg())
